@@ -78,6 +78,13 @@ def impl(case) -> str:
             ch = f.getChallenge(bytes.fromhex(case["ip"]) if case["ip"] is not None else None)
             assert ch["nonce"] == bytes.fromhex(case["nonce"])
             return ch["opaque"].hex()
+        if case["kind"] == "parse":
+            # the first lines of decode(): splitlines/join, _parseparts.findall, strip (class attribute of the factory)
+            raw = b" ".join(bytes.fromhex(case["raw"]).splitlines())
+            out = []
+            for key, a, b in f._parseparts.findall(raw):
+                out.append(key.strip().hex() + "=" + (b or a).strip().hex())
+            return ";".join(out)
         resp = bytes.fromhex(case["raw"]) if "raw" in case else _ser(case["fields"])
         try:
             creds = f.decode(resp, bytes.fromhex(case["method"]), bytes.fromhex(case["host"]))
@@ -87,7 +94,8 @@ def impl(case) -> str:
         for pw in case["pws"]:
             r = creds.checkPassword(bytes.fromhex(pw))
             out += "T" if r is True else ("F" if r is False else "?")
-        return out
+        # the parsed fields are a public attribute of the credentials object
+        return out + "|" + ";".join(k.encode("ascii").hex() + "=" + v.hex() for k, v in creds.fields.items())
 
 
 # --------------------------------------------------------------------------------------
@@ -95,6 +103,9 @@ def impl(case) -> str:
 
 
 def oracle(case, obs):
+    if case["kind"] == "parse":
+        return _parse_oracle(case, obs)
+    obs = obs.split("|")[0]
     if case["kind"] == "challenge":
         op = bytes.fromhex(obs)
         parts = op.split(b"-")
@@ -126,6 +137,16 @@ def oracle(case, obs):
         else:
             why, tag = "a wrong password / altered response must not be accepted", "accepted-" + kind
         return Failure(case, f"{kind}: outcome {obs}, expected {want}: {why}", tag)
+    return None
+
+
+def _parse_oracle(case, obs):
+    """independent reading of key=value lists: for well-formed input (built from known pairs) the pairs must come back"""
+    if "pairs" not in case:
+        return None
+    want = ";".join(k + "=" + v for k, v in case["pairs"])
+    if obs != want:
+        return Failure(case, f"well-formed header parsed as {obs}, built from {want}", "parse-roundtrip")
     return None
 
 
@@ -354,6 +375,28 @@ def gen(rng, tier):
             cases.append(_one(rng, "real", kind))
     for _ in range(1500 * n):
         cases.append(_raw(rng, rng.choice(["toy", "real"])))
+    ws = [b"", b"", b" ", b"\t", b"  ", b"\r\n ", b"\n"]
+    for _ in range(300 * n):
+        # well-formed key=value lists in every spelling the expression accepts; the pairs must come back
+        pairs, raw = [], b""
+        for j in range(rng.randrange(0, 6)):
+            k = bytes(rng.choice(b"abcXYZ09_-.") for _ in range(rng.randrange(1, 6)))
+            if rng.random() < 0.6:
+                v = bytes(rng.choice(b"abc 09,=/+-:;") for _ in range(rng.randrange(0, 8)))
+                piece = k + b'="' + v + b'"'
+                v = v.strip()
+            else:
+                v = bytes(rng.choice(b"abc09=/+-:;\"") for _ in range(rng.randrange(1, 8)))
+                if v.startswith(b'"'):
+                    v = b"x" + v        # a bare value must not start with a quote (it would open a quoted string)
+                piece = k + b"=" + v
+            raw += (b"," if j else b"") + rng.choice(ws) + piece
+            pairs.append([k.hex(), v.hex()])
+        cases.append({"kind": "parse", "hash": "toy", "priv": "00", "realm": "00", "now": 0, "raw": _h(raw), "pairs": pairs})
+    for _ in range(500 * n):
+        # arbitrary bytes over the alphabet the expression cares about
+        raw = bytes(rng.choice(b'ab= ,"\t\r\n\x0b\xff;') for _ in range(rng.randrange(0, 24)))
+        cases.append({"kind": "parse", "hash": "toy", "priv": "00", "realm": "00", "now": 0, "raw": _h(raw)})
     for _ in range(100 * n):
         ip = rng.choice([b"10.0.0.1", b"", None, b"fe80::1"])
         cases.append({"kind": "challenge", "hash": rng.choice(["toy", "real"]), "priv": _h(bytes(rng.randrange(256) for _ in range(12))),
@@ -406,12 +449,12 @@ def to_coq(case):
         return None
     if case["kind"] == "challenge":
         ip = b"" if case["ip"] is None else bytes.fromhex(case["ip"])
-        return f"inr ({hx(case['priv'])}, {hx(case['nonce'])}, {coq_bytes(ip)}, {case['now']}%N)"
-    if case["kind"] == "raw":
-        return None
-    fs = coq_list([f"({hx(k)}, {hx(v)})" for k, v in case["fields"]], "(list N * list N)")
+        return f"VChallenge ({hx(case['priv'])}, {hx(case['nonce'])}, {coq_bytes(ip)}, {case['now']}%N)"
+    if case["kind"] == "parse":
+        return f"VParse {hx(case['raw'])}"
+    raw = bytes.fromhex(case["raw"]) if "raw" in case else _ser(case["fields"])
     pws = coq_list([hx(p) for p in case["pws"]], "(list N)")
-    return (f"inl ({hx(case['priv'])}, {hx(case['realm'])}, {case['now']}%N, {fs}, {hx(case['method'])}, "
+    return (f"VLogin ({hx(case['priv'])}, {hx(case['realm'])}, {case['now']}%N, {coq_bytes(raw)}, {hx(case['method'])}, "
             f"{hx(case['host'])}, {pws})")
 
 
@@ -435,13 +478,11 @@ def describe(case):
 SPEC = Spec(
     pid="C48",
     gen=gen, impl=impl, oracle=oracle, corpus=corpus, shrink=shrink, describe=describe,
-    coq_header="From C48 Require Import Model Run.\n"
-               "Definition run (c : (bytes * bytes * N * fields * bytes * bytes * list bytes) + (bytes * bytes * bytes * N)) "
-               ":= match c with inl x => run_show x | inr y => opaque_show y end.",
+    coq_header="From C48 Require Import Model Run.",
     coq_fn="run",
     to_coq=to_coq,
-    nontrivial=lambda c, o: c["kind"] not in ("honest", "challenge") or "T" in o,
-    histogram=lambda c, o: f"{c['hash']}:{c['kind']}:" + ("LF" if o == "LF" else ("accept" if "T" in o else "deny")),
+    nontrivial=lambda c, o: c["kind"] not in ("honest", "challenge") or "T" in o.split("|")[0],
+    histogram=lambda c, o: f"{c['hash']}:{c['kind']}:" + ("parsed" if c["kind"] == "parse" else "LF" if o == "LF" else ("accept" if "T" in o.split("|")[0] else "deny")),
     rule="20 kinds of challenge/response histories (honest, later clock incl. lifetime +-1, other client address, altered "
          "nonce, altered MAC, altered / neutral / undecodable base64, opaques re-signed with the private key for other "
          "time/address/nonce and odd time fields, dropped / empty / duplicated fields, unknown algorithm, auth-int, md5-sess "
